@@ -438,6 +438,19 @@ def generate(tier, seed):
             rec['xi'] = [int(v) for v in rng.integers(-5, 6, size=n)]
             rec['bi'] = [int(v) for v in rng.integers(-5, 6, size=n)]
         recs.append(rec)
+    # every combination of (x absent / real / complex) x (b real / complex) with a real matrix, independent of the seed
+    for hasx, xc, bc in ((0, 0, 1), (1, 0, 1), (1, 1, 0), (1, 1, 1)):
+        for j in range(6 if tier == 'thorough' else 3):
+            n = int(rng.integers(2, 8))
+            nd = int(rng.integers(0, n))
+            D = [int(v) for v in rng.permutation(n)[:nd]]
+            I = [int(v) for v in rng.permutation(np.setdiff1d(np.arange(n), D))]
+            recs.append({'driver': 'bc', 'n': n, 'A': rand_matrix(rng, n), 'hasb': 1, 'hasx': hasx,
+                         'form': ['D-array', 'I-array', 'D-list-int64'][j % 3], 'D': D, 'I': I,
+                         'b': [int(v) for v in rng.integers(-5, 6, size=n)],
+                         'x': [int(v) for v in rng.integers(-5, 6, size=n)], 'diag': 1, 'ie_pow': 10, 'cplx': 1,
+                         'xi': [int(v) * xc for v in rng.integers(1, 6, size=n)],
+                         'bi': [int(v) * bc for v in rng.integers(1, 6, size=n)]})
     # systems with known solution -> real solver
     for k in range(200 if tier == 'thorough' else 30):
         n = int(rng.integers(2, 11))
